@@ -15,7 +15,7 @@ from checks import wf
 from checks.c08 import fcfg
 
 PROP = "C09"
-KINDS = ["eof", "unexpected", "custom", "partial", "transient", "temporary", "temptransient"]
+KINDS = ["eof", "unexpected", "custom", "partial", "transient", "temporary", "temptransient", "parttransient"]
 
 
 def model(run, thorough):
